@@ -20,3 +20,9 @@ external('mk_stored', [('e', 'EntryRef')], 'StoredEntry', note='EntryStored(entr
 external('entry_of', [('s', 'StoredEntry')], 'EntryRef', note='.entry of the value the cache decorator returns (the factory value or an equal stored one; cache-file errors belong to C05)')
 external('identity_of', [('p', 'SyntaxParserOfLark'), ('path', 'str')], 'IdentityDict', note='the identity dict (grammar mtime, source mtime)')
 external('cache_decorator', [('p', 'SyntaxParserOfLark'), ('base', 'str'), ('i', 'IdentityDict')], 'Decorator', note='CacheProvider.get(...)')
+
+
+record('ErrorRender.Quotation', {'filepath': 'str', 'begin_line': 'int', 'cause_line': 'str', 'cause_range': 'tuple[int, int]'}, source=(RENDER, 'ErrorRender.Quotation'))
+external('open_rb', [('p', 'str')], 'FileObj', note="open(path, mode='rb')")
+external('FileObj.readlines', [('f', 'FileObj')], 'list[str]', note='all lines of the file (bytes modelled as text)')
+external('file_lines', [('p', 'str')], 'list[str]', note='ghost: the lines of the file at that path')
